@@ -76,6 +76,9 @@ func rawRun(ctx context.Context, addr string, rcvbuf int, steps []rawStep) resul
 			}
 		}
 		if s.read > 0 || s.readAll {
+			// Reads stop at the requested amount, at close, or when the server
+			// has been quiet for a while (it may legitimately keep the
+			// connection open for another request).
 			buf := make([]byte, 32*1024)
 			want := s.read
 			for s.readAll || want > 0 {
@@ -83,6 +86,15 @@ func rawRun(ctx context.Context, addr string, rcvbuf int, steps []rawStep) resul
 				if !s.readAll && want < lim {
 					lim = want
 				}
+				idle := 3 * time.Second
+				if len(got) > 0 {
+					idle = 300 * time.Millisecond
+				}
+				rd := time.Now().Add(idle)
+				if rd.After(dl) {
+					rd = dl
+				}
+				_ = c.SetReadDeadline(rd)
 				n, err := c.Read(buf[:lim])
 				if len(got) < 4096 {
 					got = append(got, buf[:n]...)
